@@ -274,6 +274,8 @@ def run_splice(case):
             tg = p.Textgrid(0, dur)
             tg.addTier(p.IntervalTier("target", [p.Interval(*e) for e in ents], 0, dur))
     tg.addTier(p.PointTier("pt", [p.Point(*e) for e in pts], 0, dur))
+    if case.get("empty_tier"):
+        tg.addTier(p.IntervalTier("nothing_yet", [], 0, dur))  # a tier nobody has annotated yet
     before = snap_tg(tg)
     align = case["align"]
     t_stop = None if case["stop"] is None else case["stop"] / rate
@@ -308,6 +310,10 @@ def run_splice(case):
     res = snap_tg(new_tg)
     if res["names"] != before["names"]:
         raise Violation("tier-order", what)
+    for tr in res["tiers"]:
+        # every tier of the returned textgrid is as long as the returned audio, to within a sample (entry-less ones too)
+        if abs(tr["maxT"] - a_dur) > 1 / rate + 1e-9:
+            raise Violation("durations-disagree", f"{what}: tier {tr['name']!r} ends at {tr['maxT']!r}, the audio lasts {a_dur!r} s")
     tt = res["tiers"][0]["entries"]
     # entries that already carry the new label and end by the insertion point stay what they are
     old_same_label = [e for e in before["tiers"][0]["entries"] if e[2] == "SPLICE"]
@@ -471,7 +477,8 @@ def splice_cases(draw):
         ins, stop, align = c[1], c[2], False
     return {"width": width, "rate": rate, "samples": s, "segment": seg, "intervals": ivs, "points": pts,
             "insert": ins, "stop": stop, "align": align, "second": draw(st.one_of(st.none(), st.integers(0, 19))),
-            "near": draw(st.booleans()), "same_label": draw(st.integers(0, 2)) == 0, "twin_point": draw(st.booleans())}
+            "near": draw(st.booleans()), "same_label": draw(st.integers(0, 2)) == 0, "twin_point": draw(st.booleans()),
+            "empty_tier": draw(st.booleans())}
 
 
 CHECKS = [
